@@ -8,9 +8,10 @@
 (* arguments> /\ <logged observation = what the specification derives>.    *)
 (* Runs are concatenated with Reset events.  Focus selects which fields of *)
 (* the observations are compared: "C01" structure, "C02" annotations,      *)
-(* "C03" information content (consistency with the ontology's own n, N).   *)
+(* "C03" information content (consistency with the ontology's own n, N),   *)
+(* "C04" pair queries (similarity arguments and formulas).                 *)
 (***************************************************************************)
-EXTENDS HpoCore, Json, IOUtils
+EXTENDS HpoSetOps, Json, IOUtils
 
 CONSTANT Focus
 
@@ -113,7 +114,21 @@ TSubErr ==
   /\ \E lf \in Range(Rec[l].leaves) : lf \notin DescSelf(parents, Rec[l].root)
   /\ UNCHANGED coreVars
 
-TNext == TReset \/ TNewTerm \/ TTermsComplete \/ TAddParent \/ TConnectAll \/ TAddRecord \/ TAnnotate \/ TBuilt \/ TSub \/ TSubErr
+(* pair queries on the built ontology (focus C04): the structural arguments of the similarities  *)
+(* must be the ones the specification derives; the recorder has evaluated the eight formulas on   *)
+(* exactly these arguments (sim_bad lists disagreements)                                          *)
+QueryMatches(ev) ==
+  LET p == PathPair(ev.a, ev.b) IN
+  (Focus = "C04") =>
+    /\ ev.common = p.commonself
+    /\ ev.union = p.union
+    /\ ev.dist = p.dist
+    /\ IF ev.haspath THEN ev.path \in p.paths ELSE p.paths = {}      \* any shortest path is allowed
+    /\ ev.sim_bad = <<>>
+
+TQuery == Ev("Query") /\ Step /\ phase = "connected" /\ QueryMatches(Rec[l]) /\ UNCHANGED coreVars
+
+TNext == TReset \/ TNewTerm \/ TTermsComplete \/ TAddParent \/ TConnectAll \/ TAddRecord \/ TAnnotate \/ TBuilt \/ TSub \/ TSubErr \/ TQuery
 
 TSpec == TInit /\ [][TNext]_tvars
 
